@@ -222,6 +222,15 @@ impl<'a, 'b> VP<'a, 'b> {
                     self.lit(rhs, depth);
                     self.out.push_str(" ]");
                 }
+                Part::KeysFilterVar { op, neg, var } => {
+                    self.out.push_str("[ ");
+                    self.kw("keys", &["keys", "KEYS"]);
+                    self.out.push(' ');
+                    self.binop(*op, *neg);
+                    self.out.push_str(" %");
+                    self.out.push_str(var);
+                    self.out.push_str(" ]");
+                }
             }
         }
     }
